@@ -33,6 +33,12 @@ CLAIMED.update({
         text="Same exploration; after quiescence on every path: state idle/inactive, the FSM's own is_sending consistency check passes, nothing in flight, no exception reached the loop's exception handler, every caller answered, and a probe command to a responsive device succeeds.",
         note=_FSM_NOTE + " Re-binding a transport after a disconnect (reconnect) is a recorded known finding.", design="4/C07-C09"),
 })
+CLAIMED.update({
+    "C20": dict(
+        text="Two real BindContext objects (supplicant, respondent) are cross-wired through a stub ether on the virtual-time loop; per frame copy loss is a solver Boolean and arrival time a solver real, RF repeats arrive in the same read or later, a third-party offer, an absent side and failing sends are solver choices. Per path: both attempts end with the tuple or a BindingError, loss-free and prompt exchanges succeed on both sides with identical frames, nobody is left binding, the loop's exception handler stays empty, and a fresh attempt succeeds.",
+        note="Trusted: z3, symx, the stub devices replicating Fakeable._async_send_cmd/_handle_msg and the dispatcher's 1FC9 routing. Bounds: the 4 supported flows, <=1 repeat (quick) / 2 (thorough), 6-8 symbolic delays per episode. A failing send leaving the context binding is a recorded known finding.",
+        design="4/C20"),
+})
 NOT_APPLICABLE = {
     "C12": "whole-gateway discovery against a scripted controller over simulated hours: the quantified space is a discrete configuration/loss pattern and the entity layer (voluptuous schemas, pollers, entity graph) is outside the symbolically executable subset; decode kernels it rests on are covered under C05",
     "C15": "schema validity/consistency over packet histories: validators are voluptuous (third-party, callable/regex based, not instrumented) and the rules live in the entity graph; no symbolic dimension is encodable within reach",
